@@ -1,3 +1,4 @@
+import PW.Proofs.Truncation
 import PW.Proofs.MixedRadix
 import PW.Proofs.SpecLemmas
 import PW.OpModel
@@ -79,6 +80,31 @@ theorem allowed_shrink_cuts_only_zeros {α : Type} (nz : α → Bool) (v : List 
 theorem source_shrink_decisions : PW.Generated.resizeGuards.all PW.TablesSpec.shrinkRuleOk = true :=
   PW.Props.Tables.resize_guards_are_the_rule
 
+/-- **the beam-splitter cutoff `q₁ + q₂ + 1` is exact** (Mathlib matrices over ℂ, the library's generator): for
+cutoffs `d ≤ d'`, every mixing angle, on the states of total photon number below `d` — all the population
+of an input with `q₁ + q₂ < d` — the splitter `exp(iηG)` computed at cutoff `d` and embedded into cutoff
+`d'` is the splitter computed at cutoff `d'`.  So the result at `d = q₁ + q₂ + 1` is the one of every
+larger cutoff. -/
+theorem beam_splitter_cutoff_is_exact {d d' : ℕ} (hdd : d ≤ d') (η : ℝ) :
+    PW.Props.C11.bsU d' d' η * (PW.Truncation.embed d d' * PW.Truncation.low d)
+      = PW.Truncation.embed d d' * (PW.Props.C11.bsU d d η * PW.Truncation.low d) :=
+  PW.Truncation.bs_truncation_exact hdd η
+
+/-- **the creation cutoff `q + 2` is exact**: on a vector supported on levels `≤ q`, `a†` at any cutoff
+`d' ≥ d ≥ q + 2` has the entries of `a†` at cutoff `d`, and zeros beyond -/
+theorem creation_cutoff_is_exact {d d' : ℕ} (q : ℕ) (hd : q + 2 ≤ d) (hdd : d ≤ d') (ψ : ℕ → ℂ)
+    (hψ : ∀ n, q < n → ψ n = 0) (r : Fin d') :
+    (PW.Props.C11.cre d').mulVec (fun c => ψ c) r
+      = if h : (r : ℕ) < d then (PW.Props.C11.cre d).mulVec (fun c => ψ c) ⟨r, h⟩ else 0 :=
+  PW.Truncation.creation_truncation_exact q hd hdd ψ hψ r
+
+/-- **annihilation is exact at every cutoff above the occupied levels** -/
+theorem annihilation_cutoff_is_exact {d d' : ℕ} (q : ℕ) (hd : q + 1 ≤ d) (hdd : d ≤ d') (ψ : ℕ → ℂ)
+    (hψ : ∀ n, q < n → ψ n = 0) (r : Fin d') :
+    (PW.Props.C11.ann d').mulVec (fun c => ψ c) r
+      = if h : (r : ℕ) < d then (PW.Props.C11.ann d).mulVec (fun c => ψ c) ⟨r, h⟩ else 0 :=
+  PW.Truncation.annihilation_truncation_exact q hd hdd ψ hψ r
+
 end PW.Props.C10
 
 #print axioms PW.Props.C10.padding_is_zero
@@ -92,3 +118,6 @@ end PW.Props.C10
 #print axioms PW.Props.C10.source_shrink_decisions
 #print axioms PW.Props.C10.level_estimate_is_highest_occupied
 #print axioms PW.Props.C10.allowed_shrink_cuts_only_zeros
+#print axioms PW.Props.C10.beam_splitter_cutoff_is_exact
+#print axioms PW.Props.C10.creation_cutoff_is_exact
+#print axioms PW.Props.C10.annihilation_cutoff_is_exact
